@@ -15,7 +15,8 @@ EXPLANATION = (
     "what later queries observe over histories."
     " (g) Purges of the rerun queue keep UnregisterResend and every other kind. (h) add_interface does not replace an existing DnsRegistry."
     " (i) The per-interface status is never reset to Unknown while the interface is in use."
-    " (j) The repeat of a goodbye is queued with is_ipv4 = true exactly in the branch that used the IPv4 socket.")
+    " (j) The repeat of a goodbye is queued with is_ipv4 = true exactly in the branch that used the IPv4 socket."
+    " (k) After a successful removal every path of exec_command_unregister enters the goodbye loop, whatever happens to the status reply, and DnsRegistry.name_changes is not edited before the goodbye was built. (l) After the IPv4 goodbye of an interface the IPv6 socket is always tried.")
 UNDECIDED = ["what later queries observe over histories", "timing of the repeat on the wire"]
 
 
